@@ -194,7 +194,7 @@ EDITS = {
             ('imf_opts/rilling_thresh', [(0.1, 0.8, 0.05), (0.2, 0.9, 0.1)]), ('imf_opts/max_iters', [3, 6]),
             ('imf_opts/env_step_size', [0.5]), ('envelope_opts/interp_method', ['pchip', 'mono_pchip']),
             ('extrema_opts/pad_width', [1, 4]), ('extrema_opts/parabolic_extrema', [True]),
-            ('extrema_opts/mag_pad_opts/stat_length', [2, 3, (2, 1), np.array([2, 1]), [1, 3]]), ('sift_thresh', [1e-6]),
+            ('extrema_opts/mag_pad_opts/stat_length', [2, 3, (2, 1), np.array([2, 1]), [1, 3], ((2, 1),), [(3, 2)]]), ('sift_thresh', [1e-6]),
             ('imf_opts/rilling_thresh', [np.array([0.1, 0.8, 0.05])])],
     'mask_sift': [('mask_freqs', [np.array([0.3, 0.1, 0.04]), [0.25, 0.08], (0.2, 0.05), 0.3]),
                   ('mask_amp', [np.array([1.0, 0.5, 2.0]), 2]), ('mask_amp_mode', ['ratio_sig', 'abs']), ('nphases', [2, 3]),
